@@ -27,6 +27,8 @@ import contextlib
 import io
 import logging
 import math
+import random
+import zlib
 import os
 import shutil
 import tempfile
@@ -131,6 +133,31 @@ def build_net(nd):
         left, right = V(left), V(right)
         net.add_lanelet(Lanelet(left, (left + right) / 2.0, right, lid))
     return net
+
+
+def put_network(sc, nd):
+    """the lanelets of the case enter the scenario as a network, as a list, one by one, or as a list whose last element
+    is rejected (an id that is taken: the caller catches the ValueError and goes on with what was accepted)"""
+    route = nd.get("route", "network")
+    if route == "network":
+        sc.add_objects(build_net(nd))
+        return
+    lanelets = []
+    for lid, (left, right) in sorted(net_rings(nd).items()):
+        left, right = V(left), V(right)
+        lanelets.append(Lanelet(left, (left + right) / 2.0, right, lid))
+    if route == "one_by_one":
+        for la in lanelets:
+            sc.add_objects(la)
+    elif route == "list":
+        sc.add_objects(lanelets)
+    else:
+        left, right = lanelets[0].left_vertices.copy(), lanelets[0].right_vertices.copy()
+        again = Lanelet(left, (left + right) / 2.0, right, lanelets[0].lanelet_id)
+        try:
+            sc.add_objects(lanelets + [again])
+        except ValueError:
+            pass
 
 
 def build_shape(s):
@@ -516,7 +543,7 @@ def execute(case, chooser=None):
             O[o] = sc.obstacle_by_id(o)
     else:
         sc = new_scenario()
-        sc.add_objects(build_net(case["net"]))
+        put_network(sc, case["net"])
     for od in case["obs"]:
         if od["id"] not in O:
             O[od["id"]] = build_obstacle(od)
@@ -692,6 +719,9 @@ def gen_case(rng):
         # a lane that is modelled twice (car lane + tram / bus lanelet over the same surface): same boundary polylines,
         # another id
         nd["twin"] = rng.randint(1, lanes * segs)
+    # how the lanelets enter the scenario (derived from the net itself: no draw from the main stream)
+    nd["route"] = random.Random(zlib.crc32(repr(sorted(nd.items())).encode())).choice(
+        ["network"] * 5 + ["list", "list", "list_rejected", "list_rejected", "one_by_one"])
     length, top = segs * seg_len, lanes * width
     obs = []
     n_obs = rng.choice([1, 2, 2, 3, 3, 4, 5])
